@@ -12,6 +12,7 @@ from .. import common, instrument as ins, mon2, w2
 from . import _w2case
 
 ID = "C19"
+KNOWN_CEILING = {'k10_pte_reads_positions_columns': 0.03}   # share of all evaluations a known finding may reach before it counts as a violation again
 LEVEL = "exploration"
 RULE = ("Unit 'struct': random tree descriptions built through every constructor form (nested lists, dicts with renaming, strings, parent= "
         "attachment, dynamic setup_from_parent after setup); checks parent/children/root/members/full_name against the description, duplicate "
